@@ -20,6 +20,13 @@ func buildC03World(t testing.TB) *c03World {
 	w.MkDir("empty")
 	w.File("d2/a.txt", 10, 2)
 	w.File("d2/b.bin", 3000, 3)
+	// names whose byte length and "character" length differ, or that are not valid UTF-8 at all (legacy code pages):
+	// announced name length and bytes sent must agree for these too
+	w.File("d3/\xc8\xe3\xf0\xe0.iso", 11, 4)
+	w.File("d3/a\xff\xfeb", 12, 4)
+	w.File("d3/\u0436\u0436.iso", 13, 4)
+	w.File("d3/"+strings.Repeat("\xe9", 255), 14, 4)
+	w.MkDir("d3/\xfe\xfe\xfe")
 	cw := &c03World{w: w}
 	cw.resetW()
 	return cw
@@ -37,7 +44,7 @@ func (cw *c03World) resetW() {
 func c03Alphabet() []Req {
 	big := patBytes(5, 0, 70000)
 	return []Req{
-		mkReq(opOpenDir, "/d2"), mkReq(opOpenDir, "/nope"), mkReq(opOpenDir, "/empty"), mkReq(opOpenDir, "/f.bin"),
+		mkReq(opOpenDir, "/d2"), mkReq(opOpenDir, "/nope"), mkReq(opOpenDir, "/empty"), mkReq(opOpenDir, "/f.bin"), mkReq(opOpenDir, "/d3"),
 		noargReq(opReadDirEntry), noargReq(opReadDirEntryV2), noargReq(opReadDir),
 		mkReq(opStatFile, "/f.bin"), mkReq(opStatFile, "/nope"), mkReq(opStatFile, "/d2"),
 		mkReq(opOpenFile, "/f.bin"), mkReq(opOpenFile, "/nope"), mkReq(opOpenFile, "/d2/b.bin"), mkReq(opOpenFile, "/CLOSEFILE"),
@@ -69,7 +76,7 @@ func TestC03(t *testing.T) {
 	if r.Thorough() {
 		depth = 4
 	}
-	r.Rule("all request sequences of length <= depth over a 34-request alphabet covering the 15 opcodes in success and failure form plus unknown opcodes, x writing enabled/disabled; every truncation point of every request as last request after every 1-request prefix; whole/1-byte/7-byte delivery; a case is distinct by (allow-write, executed request prefix, delivery)")
+	r.Rule("all request sequences of length <= depth over a 36-request alphabet covering the 15 opcodes in success and failure form plus unknown opcodes, x writing enabled/disabled; every truncation point of every request as last request after every 1-request prefix; whole/1-byte/7-byte delivery; a case is distinct by (allow-write, executed request prefix, delivery)")
 	r.Extra("depth", depth)
 	r.Extra("alphabet", len(alpha))
 
